@@ -294,6 +294,7 @@ def expand_c12(st, seed):
     r["th"] = [2, -1, 3]
     r["ptab"] = [[rng.choice([-2, 1, 3]) + 2 * i for i in range(b)] if (k + 1) in st["batched"] else [] for k in range(3)]
     r["pshape"] = st["pshape"]
+    r["pint"] = bool(st.get("pint"))
     r["w"]["dyn"] = [1, 2]
     if lk == "ode":
         r["ic"] = dict(on=True, t0=1, u0=[2])
